@@ -1,5 +1,6 @@
 import NetVerif.Proofs.C07
 import NetVerif.Model.H2Meta
+import NetVerif.Proofs.Lemmas.Hpack
 /-!
 C07, concrete HPACK: `readMetaFrame` composed with the real decoder model (`Model/Hpack.lean`).
 
@@ -149,5 +150,457 @@ theorem readMetaH_abstract (fr : Framer) (mhls : Nat) (hdec : Hpack.Decoder) (bs
               · simp [hi, hp]
               · simp [hi, hp]
     | _ => exact ⟨{}, by simp [hres]⟩
+
+/-! ### The decoder under the emit callback vs. the plain decoder -/
+
+theorem finishEmit_ok (d d1 : Hpack.DecCore) (hf : Hpack.Field) (em1 : Option Hpack.Field)
+    (h : Hpack.finishEmit d hf = .ok d1 em1) : d1 = d ∧ (d.emitEnabled = false → em1 = none) := by
+  unfold Hpack.finishEmit Hpack.callEmit at h
+  split at h
+  · cases h
+  · rename_i em heq
+    simp only [Hpack.ApplyRes.ok.injEq] at h
+    obtain ⟨rfl, rfl⟩ := h
+    split at heq
+    · cases heq
+    · simp only [Except.ok.injEq] at heq
+      subst heq
+      refine ⟨rfl, fun hd => by simp [hd]⟩
+
+theorem applyAction_ok_emit (d d1 : Hpack.DecCore) (a : Hpack.Action) (em1 : Option Hpack.Field)
+    (h : Hpack.applyAction d a = .ok d1 em1) :
+    d1.emitEnabled = d.emitEnabled ∧ (d.emitEnabled = false → em1 = none) := by
+  cases a with
+  | indexed e =>
+    obtain ⟨rfl, h2⟩ := finishEmit_ok _ _ _ _ h
+    exact ⟨rfl, h2⟩
+  | sizeUpdate sz =>
+    simp only [Hpack.applyAction, Hpack.ApplyRes.ok.injEq] at h
+    obtain ⟨rfl, rfl⟩ := h
+    simp
+  | literal it tn un uv =>
+    simp only [Hpack.applyAction] at h
+    split at h
+    · cases h
+    split at h
+    · cases h
+    obtain ⟨rfl, h2⟩ := finishEmit_ok _ _ _ _ h
+    constructor
+    · split <;> rfl
+    · intro hd; apply h2; split <;> exact hd
+
+theorem parseRepr_ok_emit (d d' : Hpack.DecCore) (buf rest : List Nat) (em : Option Hpack.Field)
+    (h : Hpack.parseRepr d buf = .ok d' rest em) :
+    d'.emitEnabled = d.emitEnabled ∧ (d.emitEnabled = false → em = none) := by
+  unfold Hpack.parseRepr at h
+  split at h
+  · cases h
+  · cases h
+  · split at h
+    · cases h
+    · rename_i happ
+      simp only [Hpack.PRes.ok.injEq] at h
+      obtain ⟨rfl, _, rfl⟩ := h
+      exact applyAction_ok_emit _ _ _ _ happ
+theorem finishEmit_err (d d1 : Hpack.DecCore) (hf : Hpack.Field) (e : Hpack.PErr)
+    (h : Hpack.finishEmit d hf = .err e d1) : d1 = d := by
+  unfold Hpack.finishEmit at h
+  split at h
+  · simp only [Hpack.ApplyRes.err.injEq] at h; exact h.2.symm
+  · cases h
+
+theorem parseRepr_err_emit (d d' : Hpack.DecCore) (buf : List Nat) (e : Hpack.PErr)
+    (h : Hpack.parseRepr d buf = .err e d') : d'.emitEnabled = d.emitEnabled := by
+  unfold Hpack.parseRepr at h
+  split at h
+  · cases h
+  · simp only [Hpack.PRes.err.injEq] at h; rw [← h.2]
+  · rename_i a rest' _
+    split at h
+    · rename_i e1 d1 happ
+      simp only [Hpack.PRes.err.injEq] at h
+      obtain ⟨_, rfl⟩ := h
+      cases a with
+      | indexed en => rw [finishEmit_err _ _ _ _ happ]
+      | sizeUpdate sz => simp [Hpack.applyAction] at happ
+      | literal it tn un uv =>
+        simp only [Hpack.applyAction] at happ
+        split at happ
+        · simp only [Hpack.ApplyRes.err.injEq] at happ; rw [← happ.2]
+        split at happ
+        · simp only [Hpack.ApplyRes.err.injEq] at happ; rw [← happ.2]
+        rw [finishEmit_err _ _ _ _ happ]
+        split <;> rfl
+    · cases h
+
+theorem metaEmit_disabled (st : MetaState) (f : Field) (h : st.enabled = false) : metaEmit st f = st := by
+  simp [metaEmit, h]
+
+theorem foldl_disabled (fs : List Field) (st : MetaState) (h : st.enabled = false) : fs.foldl metaEmit st = st := by
+  induction fs with
+  | nil => rfl
+  | cons f rest ih => simp only [List.foldl_cons, metaEmit_disabled st f h, ih]
+
+/-- once emission is disabled the callback state no longer changes during `Write`. -/
+theorem writeLoopCb_frozen (fuel : Nat) (d : Hpack.DecCore) (buf : List Nat) (st : MetaState)
+    (h : st.enabled = false) : (writeLoopCb fuel d buf st).2.1 = st := by
+  induction fuel generalizing d buf with
+  | zero => rfl
+  | succ n ih =>
+    unfold writeLoopCb
+    split
+    · rfl
+    split
+    · split <;> rfl
+    · rfl
+    · rename_i d' rest e _
+      split
+      · cases e with
+        | none => exact ih _ _
+        | some f => simp only [metaEmit_disabled st _ h]; exact ih _ _
+      · rfl
+
+/-- the decoder's `emitEnabled` flag follows the callback state. -/
+theorem writeLoopCb_flag (fuel : Nat) (d : Hpack.DecCore) (buf : List Nat) (st : MetaState)
+    (h : d.emitEnabled = st.enabled) :
+    (writeLoopCb fuel d buf st).1.emitEnabled = (writeLoopCb fuel d buf st).2.1.enabled := by
+  induction fuel generalizing d buf st with
+  | zero => exact h
+  | succ n ih =>
+    unfold writeLoopCb
+    split
+    · exact h
+    split
+    · split <;> exact h
+    · rename_i e d' hp
+      simp only [Lemmas.Hpack.afterRepr_emitEnabled]
+      -- an erroring representation leaves the flag alone
+      have := parseRepr_err_emit d d' buf e hp
+      rw [this]; exact h
+    · rename_i d' rest e hp
+      split
+      · exact ih _ _ _ rfl
+      · rw [(parseRepr_ok_emit _ _ _ _ _ hp).1]; exact h
+theorem writeLoop_em_prefix (par : Bool) (fuel : Nat) (d : Hpack.DecCore) (buf : List Nat) (em : List Hpack.Field) :
+    ∃ new, (Hpack.writeLoop par fuel d buf em).2.1 = em ++ new := by
+  induction fuel generalizing d buf em with
+  | zero => exact ⟨[], by simp [Hpack.writeLoop]⟩
+  | succ n ih =>
+    unfold Hpack.writeLoop
+    split
+    · exact ⟨[], by simp⟩
+    split
+    · split <;> exact ⟨[], by simp⟩
+    · exact ⟨[], by simp⟩
+    · rename_i d' rest e _
+      split
+      · obtain ⟨new, hnew⟩ := ih (Hpack.afterRepr buf d') rest (em ++ Hpack.optToList e)
+        exact ⟨Hpack.optToList e ++ new, by rw [hnew, List.append_assoc]⟩
+      · exact ⟨[], by simp⟩
+
+private theorem core_eta (c : Hpack.DecCore) (h : c.emitEnabled = true) : { c with emitEnabled := true } = c := by
+  cases c; simp_all
+
+/-- Lockstep of `Decoder.Write` under the callback with the plain `Hpack.writeLoop` (emission
+enabled): the callback state is the fold of the emit callback over the fields the plain decoder
+emits, and as long as the callback has not disabled emission the two decoders are identical. -/
+theorem writeLoopCb_lockstep (fuel : Nat) (d : Hpack.DecCore) (buf : List Nat) (st : MetaState)
+    (em : List Hpack.Field) (hd : d.emitEnabled = true) (hs : st.enabled = true) :
+    ∃ new, (Hpack.writeLoop true fuel d buf em).2.1 = em ++ new ∧
+      (writeLoopCb fuel d buf st).2.1 = (new.map toField).foldl metaEmit st ∧
+      ((writeLoopCb fuel d buf st).2.1.enabled = true →
+        (writeLoopCb fuel d buf st).1 = (Hpack.writeLoop true fuel d buf em).1 ∧
+        (writeLoopCb fuel d buf st).2.2 = (Hpack.writeLoop true fuel d buf em).2.2) := by
+  induction fuel generalizing d buf st em with
+  | zero => exact ⟨[], by simp [Hpack.writeLoop, writeLoopCb]⟩
+  | succ n ih =>
+    unfold Hpack.writeLoop writeLoopCb
+    by_cases hb : buf = []
+    · exact ⟨[], by simp [hb]⟩
+    simp only [hb, ↓reduceIte]
+    cases hp : Hpack.parseRepr d buf with
+    | needMore =>
+      simp only [true_and]
+      split <;> exact ⟨[], by simp⟩
+    | err e d' => exact ⟨[], by simp⟩
+    | ok d' rest e =>
+      simp only
+      by_cases hl : rest.length < buf.length
+      case neg => simp only [hl, ↓reduceIte]; exact ⟨[], by simp⟩
+      simp only [hl, ↓reduceIte]
+      have hd' : (Hpack.afterRepr buf d').emitEnabled = true := by
+        rw [Lemmas.Hpack.afterRepr_emitEnabled, (parseRepr_ok_emit _ _ _ _ _ hp).1, hd]
+      have step : ∀ (st1 : MetaState) (el : List Hpack.Field), st1 = (el.map toField).foldl metaEmit st →
+          ∃ new, (Hpack.writeLoop true n (Hpack.afterRepr buf d') rest (em ++ el)).2.1 = em ++ new ∧
+            (writeLoopCb n { Hpack.afterRepr buf d' with emitEnabled := st1.enabled } rest st1).2.1
+              = (new.map toField).foldl metaEmit st ∧
+            ((writeLoopCb n { Hpack.afterRepr buf d' with emitEnabled := st1.enabled } rest st1).2.1.enabled = true →
+              (writeLoopCb n { Hpack.afterRepr buf d' with emitEnabled := st1.enabled } rest st1).1
+                = (Hpack.writeLoop true n (Hpack.afterRepr buf d') rest (em ++ el)).1 ∧
+              (writeLoopCb n { Hpack.afterRepr buf d' with emitEnabled := st1.enabled } rest st1).2.2
+                = (Hpack.writeLoop true n (Hpack.afterRepr buf d') rest (em ++ el)).2.2) := by
+        intro st1 el hfold
+        by_cases hen : st1.enabled = true
+        · rw [hen, core_eta _ hd']
+          obtain ⟨new, h1, h2, h3⟩ := ih (Hpack.afterRepr buf d') rest st1 (em ++ el) hd' hen
+          refine ⟨el ++ new, by rw [h1, List.append_assoc], ?_, h3⟩
+          rw [h2, hfold, List.map_append, List.foldl_append]
+        · have hen' : st1.enabled = false := by simpa using hen
+          obtain ⟨new, hnew⟩ := writeLoop_em_prefix true n (Hpack.afterRepr buf d') rest (em ++ el)
+          have hfz := writeLoopCb_frozen n { Hpack.afterRepr buf d' with emitEnabled := st1.enabled } rest st1 hen'
+          refine ⟨el ++ new, by rw [hnew, List.append_assoc], ?_, ?_⟩
+          · rw [hfz, List.map_append, List.foldl_append, ← hfold, foldl_disabled _ _ hen']
+          · intro h; rw [hfz] at h; exact absurd h hen
+      cases e with
+      | none => simpa [Hpack.optToList] using step st [] rfl
+      | some f => simpa [Hpack.optToList] using step (metaEmit st (toField f)) [f] rfl
+theorem hdecWrite_frozen (d : Hpack.Decoder) (st : MetaState) (p : List Nat) (h : st.enabled = false) :
+    (hdecWrite d st p).2.1 = st := by
+  unfold hdecWrite
+  split
+  · rfl
+  · have := writeLoopCb_frozen ((d.saveBuf ++ p).length + 1) d.toDecCore (d.saveBuf ++ p) st h
+    split <;> (rename_i heq; rw [heq] at this; exact this)
+
+theorem hdecWrite_flag (d : Hpack.Decoder) (st : MetaState) (p : List Nat) (h : d.emitEnabled = st.enabled) :
+    (hdecWrite d st p).1.emitEnabled = (hdecWrite d st p).2.1.enabled := by
+  unfold hdecWrite
+  split
+  · exact h
+  · have := writeLoopCb_flag ((d.saveBuf ++ p).length + 1) d.toDecCore (d.saveBuf ++ p) st h
+    split <;> (rename_i heq; rw [heq] at this; exact this)
+
+theorem finishWrite_em (r : Hpack.DecCore × List Hpack.Field × Hpack.LoopEnd) :
+    (Hpack.finishWrite r).2.1 = r.2.1 := by
+  unfold Hpack.finishWrite; split <;> rfl
+
+theorem runChunks_cons_em (d : Hpack.Decoder) (frag : List Nat) (frs : List (List Nat)) :
+    ∃ more, (Hpack.runChunks true d (frag :: frs)).2.1 = (d.write frag).2.1 ++ more := by
+  simp only [Hpack.runChunks]
+  have hw' : Hpack.Decoder.writeG true d frag = d.write frag := rfl
+  rw [hw']
+  generalize d.write frag = W
+  obtain ⟨d1, em1, r1⟩ := W
+  cases r1 with
+  | some e => exact ⟨[], by simp⟩
+  | none =>
+    simp only
+    generalize Hpack.runChunks true d1 frs = R
+    obtain ⟨d2, em2, r⟩ := R
+    exact ⟨em2, rfl⟩
+
+theorem runChunks_cons_ok (d : Hpack.Decoder) (frag : List Nat) (frs : List (List Nat))
+    (h : (d.write frag).2.2 = none) :
+    (Hpack.runChunks true d (frag :: frs)).2.1 = (d.write frag).2.1 ++ (Hpack.runChunks true (d.write frag).1 frs).2.1 := by
+  simp only [Hpack.runChunks]
+  have hw' : Hpack.Decoder.writeG true d frag = d.write frag := rfl
+  rw [hw']
+  generalize d.write frag = W at h
+  obtain ⟨d1, em1, r1⟩ := W
+  simp only at h
+  subst h
+  simp only
+
+/-- One `hdec.Write(frag)` inside `readMetaFrame` against the plain `Hpack.Decoder.write`. -/
+theorem hdecWrite_lockstep (d : Hpack.Decoder) (st : MetaState) (p : List Nat)
+    (hd : d.emitEnabled = true) (hs : st.enabled = true) :
+    (hdecWrite d st p).2.1 = ((d.write p).2.1.map toField).foldl metaEmit st ∧
+    ((hdecWrite d st p).2.1.enabled = true →
+      (hdecWrite d st p).1 = (d.write p).1 ∧ (hdecWrite d st p).2.2 = (d.write p).2.2.isSome) := by
+  unfold hdecWrite Hpack.Decoder.write Hpack.Decoder.writeG
+  by_cases hp : p = []
+  · simp [hp]
+  simp only [hp, ↓reduceIte]
+  obtain ⟨new, h1, h2, h3⟩ := writeLoopCb_lockstep ((d.saveBuf ++ p).length + 1) d.toDecCore (d.saveBuf ++ p) st []
+    hd hs
+  generalize writeLoopCb ((d.saveBuf ++ p).length + 1) d.toDecCore (d.saveBuf ++ p) st = C at h2 h3
+  generalize Hpack.writeLoop true ((d.saveBuf ++ p).length + 1) d.toDecCore (d.saveBuf ++ p) [] = E at h1 h3
+  obtain ⟨c, st', cend⟩ := C
+  obtain ⟨e1, eem, eend⟩ := E
+  simp only [List.nil_append] at h1 h2 h3
+  subst h1
+  rw [finishWrite_em]
+  cases cend with
+  | saved l =>
+    simp only
+    refine ⟨h2, fun hen => ?_⟩
+    obtain ⟨rfl, rfl⟩ := h3 hen
+    simp [Hpack.finishWrite]
+  | err e =>
+    simp only
+    refine ⟨h2, fun hen => ?_⟩
+    obtain ⟨rfl, rfl⟩ := h3 hen
+    simp [Hpack.finishWrite]
+
+/-- The loop of `readMetaFrame` over actual bytes: the callback state at `break` is the fold of the
+emit callback over everything the plain decoder (emission on) emits for the fragments written. -/
+theorem metaLoopH_fields (fuel : Nat) (fr : Framer) (d : Hpack.Decoder) (st : MetaState) (frag : List Nat)
+    (ended : Bool) (bs : List Nat) (done : List (List Nat)) (out : LoopOut)
+    (hflag : d.emitEnabled = st.enabled)
+    (h : (metaLoopH fuel fr d st frag ended bs done).1 = .ok out) :
+    ∃ frs, out.frags = done ++ frag :: frs ∧
+      out.st = (((Hpack.runChunks true d (frag :: frs)).2.1).map toField).foldl metaEmit st := by
+  induction fuel generalizing fr d st frag ended bs done with
+  | zero => simp [metaLoopH] at h
+  | succ n ih =>
+    unfold metaLoopH at h
+    split at h
+    · cases h
+    split at h
+    · cases h
+    have hfl := hdecWrite_flag d st frag hflag
+    have hfz := hdecWrite_frozen d st frag
+    have hls := hdecWrite_lockstep d st frag
+    generalize hdecWrite d st frag = w at h hfl hfz hls
+    obtain ⟨d', st', werr⟩ := w
+    simp only at h hfl hfz hls
+    cases werr with
+    | true => simp at h
+    | false =>
+      simp only [Bool.false_eq_true, ↓reduceIte] at h
+      -- what this Write contributes, in both regimes
+      have hstep : ∀ frs, (st'.enabled = true → d' = (d.write frag).1 ∧ (d.write frag).2.2 = none) →
+          (∀ X, X = (((Hpack.runChunks true d' frs).2.1).map toField).foldl metaEmit st' ∨ st'.enabled = false →
+            (st'.enabled = false → X = st') →
+            X = (((Hpack.runChunks true d (frag :: frs)).2.1).map toField).foldl metaEmit st) := by
+        intro frs hsame X hX hXf
+        cases hen : st.enabled with
+        | false =>
+          have e1 : st' = st := hfz hen
+          have hX' : X = st := by
+            subst e1
+            exact hXf hen
+          rw [hX', foldl_disabled _ _ hen]
+        | true =>
+          have hd : d.emitEnabled = true := by rw [hflag, hen]
+          obtain ⟨hl1, hl2⟩ := hls hd hen
+          cases hen' : st'.enabled with
+          | false =>
+            rw [hXf hen']
+            have := runChunks_cons_em d frag frs
+            obtain ⟨more, hmore⟩ := this
+            rw [hmore, List.map_append, List.foldl_append, ← hl1, foldl_disabled _ _ hen']
+          | true =>
+            obtain ⟨hd', hnone⟩ := hsame hen'
+            rcases hX with hX | hX
+            · rw [hX, hl1]
+              have := runChunks_cons_ok d frag frs hnone
+              rw [← hd'] at this
+              rw [this, List.map_append, List.foldl_append]
+            · rw [hen'] at hX; cases hX
+      have hsame : st'.enabled = true → d' = (d.write frag).1 ∧ (d.write frag).2.2 = none := by
+        intro hen'
+        cases hen : st.enabled with
+        | false => rw [hfz hen] at hen'; rw [hen] at hen'; cases hen'
+        | true =>
+          have hd : d.emitEnabled = true := by rw [hflag, hen]
+          obtain ⟨e1, e2⟩ := (hls hd hen).2 hen'
+          refine ⟨e1, ?_⟩
+          cases hq : (d.write frag).2.2 with
+          | none => rfl
+          | some e => rw [hq] at e2; simp at e2
+      cases ended with
+      | true =>
+        simp only [↓reduceIte, Except.ok.injEq] at h
+        subst h
+        refine ⟨[], rfl, ?_⟩
+        exact hstep [] hsame st' (by
+          cases hen' : st'.enabled with
+          | false => exact Or.inr rfl
+          | true => exact Or.inl (by simp [Hpack.runChunks])) (fun _ => rfl)
+      | false =>
+        simp only [Bool.false_eq_true, ↓reduceIte] at h
+        cases hres : (readFrame fr bs).res with
+        | error e => simp [hres] at h
+        | ok f =>
+          cases f with
+          | continuation hc frag' =>
+            simp only [hres] at h
+            obtain ⟨frs, hfr, hst⟩ := ih _ d' st' frag' _ _ (done ++ [frag]) hfl h
+            refine ⟨frag' :: frs, by rw [hfr]; simp, ?_⟩
+            exact hstep (frag' :: frs) hsame out.st (Or.inl hst) (fun hen' => by rw [hst, foldl_disabled _ _ hen'])
+          | _ => simp [hres] at h
+/-- The MetaHeadersFrame guarantees over actual header-block bytes: for every byte stream, every
+limit and every state of the Framer's HPACK decoder (corollary of the general lemma
+`readMeta_guarantees` through `readMetaH_abstract`). -/
+theorem readMetaH_guarantees (fr : Framer) (mhls : Nat) (hdec : Hpack.Decoder) (bs : List Nat)
+    (h : FrameHeader) (prio : PriorityParam) (fields : List Field) (trunc : Bool)
+    (hres : (readMetaH fr mhls hdec bs).res = .ok (.metaHeaders h prio fields trunc)) :
+    h.length ≤ fr.maxReadSize ∧ h.streamID ≠ 0 ∧
+    PseudoFirst fields ∧
+    (∀ f ∈ fields, f.isPseudo = true → f.name ∈ pseudoRequest ∨ f.name ∈ pseudoResponse) ∧
+    ((fields.filter Field.isPseudo).map (·.name)).Nodup ∧
+    ¬ ((∃ f ∈ fields, f.isPseudo = true ∧ f.name ∈ pseudoRequest) ∧
+       (∃ f ∈ fields, f.isPseudo = true ∧ f.name ∈ pseudoResponse)) ∧
+    (∀ f ∈ fields, FieldOK f) ∧
+    sizeSum fields ≤ maxHeaderListSize mhls := by
+  obtain ⟨orc, h1, _, _⟩ := readMetaH_abstract fr mhls hdec bs
+  exact readMeta_guarantees fr mhls orc bs h prio fields trunc (h1.trans hres)
+
+/-- The fields of a returned MetaHeadersFrame are exactly what `hpack.Decoder.Write` emits, cut off
+by the size rule: with `frag` the fragment of the HEADERS frame and `frs` those of the
+CONTINUATION frames consumed, and `em` the fields the decoder — as configured by `readMetaFrame`
+(emission on, max string length = MaxHeaderListSize), writing the fragments in order — emits,
+`Fields`/`Truncated` are the result of running the emit callback over `em`; in particular a frame
+not marked Truncated carries all of `em`, unchanged and in order. -/
+theorem readMetaH_fields (fr : Framer) (mhls : Nat) (hdec : Hpack.Decoder) (bs : List Nat)
+    (h : FrameHeader) (prio : PriorityParam) (fields : List Field) (trunc : Bool)
+    (hres : (readMetaH fr mhls hdec bs).res = .ok (.metaHeaders h prio fields trunc)) :
+    ∃ frag frs, (readFrame fr bs).res = .ok (.headers h prio frag) ∧
+      fields = ((((Hpack.runChunks true (prepDecoder hdec mhls) (frag :: frs)).2.1).map toField).foldl metaEmit
+                  { remainSize := maxHeaderListSize mhls }).fields ∧
+      trunc = ((((Hpack.runChunks true (prepDecoder hdec mhls) (frag :: frs)).2.1).map toField).foldl metaEmit
+                  { remainSize := maxHeaderListSize mhls }).truncated ∧
+      (trunc = false → fields = ((Hpack.runChunks true (prepDecoder hdec mhls) (frag :: frs)).2.1).map toField) := by
+  unfold readMetaH at hres
+  cases hrd : (readFrame fr bs).res with
+  | error e => simp [hrd] at hres
+  | ok f =>
+    cases f with
+    | headers h0 prio0 frag =>
+      simp only [hrd] at hres
+      have hflag : (prepDecoder hdec mhls).emitEnabled = ({ remainSize := maxHeaderListSize mhls } : MetaState).enabled := rfl
+      have hf := metaLoopH_fields ((readFrame fr bs).rest.length + 1) (readFrame fr bs).fr (prepDecoder hdec mhls)
+        { remainSize := maxHeaderListSize mhls } frag (hasFlag h0.flags flagEndHeaders) (readFrame fr bs).rest []
+      generalize metaLoopH ((readFrame fr bs).rest.length + 1) (readFrame fr bs).fr (prepDecoder hdec mhls)
+        { remainSize := maxHeaderListSize mhls } frag (hasFlag h0.flags flagEndHeaders) (readFrame fr bs).rest [] = L
+        at hres hf
+      obtain ⟨r1, d1, fr1, rest1⟩ := L
+      cases r1 with
+      | error e => simp at hres
+      | ok out =>
+        obtain ⟨frs, _, hst⟩ := hf out hflag rfl
+        simp only at hres
+        cases hc : out.hdec.close with
+        | mk dcl ce =>
+          rw [hc] at hres
+          cases ce with
+          | some e => simp at hres
+          | none =>
+            simp only at hres
+            by_cases hi : out.st.invalid = true
+            · simp [hi] at hres
+            by_cases hp : checkPseudos out.st.fields = true
+            · simp only [hi, hp, Bool.false_eq_true, ↓reduceIte, Bool.not_true, Except.ok.injEq,
+                MFrame.metaHeaders.injEq] at hres
+              obtain ⟨rfl, rfl, rfl, rfl⟩ := hres
+              refine ⟨frag, frs, rfl, by rw [hst], by rw [hst], ?_⟩
+              intro htr
+              have h0c : Complete [] ({ remainSize := maxHeaderListSize mhls } : MetaState) := by
+                intro _ _; exact ⟨rfl, rfl⟩
+              have hcomp := foldl_complete
+                (((Hpack.runChunks true (prepDecoder hdec mhls) (frag :: frs)).2.1).map toField) [] _ h0c
+              rw [← hst] at hcomp
+              simpa using (hcomp htr (by simpa using hi)).2
+            · simp [hi, hp] at hres
+    | _ => simp [hrd] at hres
+
+
+/-! ### Non-vacuity -/
+
+/-- HEADERS (stream 1, END_HEADERS) with the block `82 84`: `:method: GET`, `:path: /`. -/
+example : (readMetaH newFramer 0 (Hpack.Decoder.new 4096) [0, 0, 2, 1, 4, 0, 0, 0, 1, 130, 132]).res
+    = .ok (.metaHeaders ⟨2, 1, 4, 1⟩ {} [⟨[58, 109, 101, 116, 104, 111, 100], [71, 69, 84]⟩, ⟨[58, 112, 97, 116, 104], [47]⟩] false) := by
+  rfl
 
 end NetVerif.Proofs.C07
